@@ -113,8 +113,8 @@ var c20Topics = []string{"a", "b", "c"}
 // response), see HangNeedsLibraryFrame for what is not counted.
 func (C20) CrashIsViolation() string { return "C20" }
 
-// RunTimeout implements core.CrashChecker (a run takes milliseconds).
-func (C20) RunTimeout() float64 { return 30 }
+// RunTimeout implements core.CrashChecker (a run takes milliseconds; the linearizability check of a history is given up to 30 s).
+func (C20) RunTimeout() float64 { return 90 }
 
 // HangNeedsLibraryFrame implements core.HangAttributor: only a child whose
 // goroutine dump shows library code computing counts; everything parked is
